@@ -103,13 +103,13 @@ def generate(tier, rng):
         base = gen_system(rng, k)
         U = sum_ulp(base)
         variants = [("balanced", None)]
-        for mode in ("above", "below", "gross", "nan", "negative", "stocknan"):
+        for mode in ("above", "below", "gross", "nan", "negative", "stocknan", "zero_tol", "zero_tol_balanced"):
             variants.append((mode, rng.random()))
         for vi, (mode, r) in enumerate(variants):
             sysd = dict(base, flows=[dict(f, arr=dict(f["arr"], values=list(f["arr"]["values"]))) for f in base["flows"]],
                         stocks=[dict(s, inflow=list(s["inflow"]), outflow=list(s["outflow"]), stock=list(s["stock"])) for s in base["stocks"]])
             # precise threshold tests need an explicit tolerance well above the float resolution of the sums
-            explicit = mode in ("above", "below") or (k + vi) % 3 == 0
+            explicit = mode in ("above", "below") or (k + vi) % 3 == 0    # (zero_tol sets its own)
             tol = Fraction(rng.choice([1, 2, 8]), 2 ** rng.choice([20, 30])) if explicit else None
             compare_balances = True
             if mode in ("above", "below") and sysd["flows"]:
@@ -118,6 +118,13 @@ def generate(tier, rng):
                 steps = (math.floor(tol * Fraction(3, 2) / U) + 1) if mode == "above" else max(math.floor(tol / 2 / U), 1)
                 delta = steps * U * (1 if int(r * 10) % 2 else -1)
                 f["arr"]["values"][j] = str(Fraction(f["arr"]["values"][j]) + delta)
+            elif mode in ("zero_tol", "zero_tol_balanced"):
+                # an explicit tolerance of exactly zero: the smallest imbalance (one unit in the last place of the sums) is a failure
+                tol = Fraction(0)
+                if mode == "zero_tol" and sysd["flows"]:
+                    f = sysd["flows"][int(r * len(sysd["flows"]))]
+                    j = int(r * 997) % len(f["arr"]["values"])
+                    f["arr"]["values"][j] = str(Fraction(f["arr"]["values"][j]) + U * (1 if int(r * 10) % 2 else -1))
             elif mode == "gross" and sysd["flows"]:
                 f = sysd["flows"][int(r * len(sysd["flows"]))]
                 j = int(r * 997) % len(f["arr"]["values"])
